@@ -1716,8 +1716,7 @@ class Stream(AbstractStream):
             if len(phases) == 1:
                 phase, = phases
                 self.phase = phase
-                self.mol.copy_like(other.imol[phase])
-                return
+                imol = other._imol.get_phase(phase)
             else:
                 self.phases = other.phases
                 imol = other._imol
